@@ -1,6 +1,24 @@
 """What each registered check claims (source of MANIFEST.json; see tools/gen_manifest.py)."""
 
 CLAIMS = {
+    "C11": {
+        "text": "The three two-point formulas are evaluated symbolically (generic over the number type) and must equal their closed forms incl. the "
+                "first-interval rule of the zero-rate formula; the flat rules are compared as canonical (condition, value) pairs; every interpolator "
+                "must feed nodes index/index+1 of its own map (x0 from index 0) to its own formula in order, with index = node_index = "
+                "index_left(keys, ts, None); CurveDF::try_new sorts on every path to construction and is the only constructor.",
+        "design_ref": "DESIGN.md §4 C11",
+        "note": "Not decided: index_left (recursive bisection) — which interval a date falls in, clamping; 'between the nodes' is a numeric consequence. Trusted: lib/cel.py.",
+        "technique": "symbolic normalisation of typed HIR vs closed forms; MIR must-pass-through (sort before construct); who-may-construct",
+    },
+    "C12": {
+        "text": "CurveDF::set_ad_order is evaluated for all 9 (target, stored) cases with the node map as a symbolic iterator pipeline: keys unchanged, "
+                "values through value-preserving conversions, float nodes raised with exactly tag vars[i] by enumerate index over the sorted map, "
+                "vars = id+'0'.. ; nodes_into_order sorts before enumerating (MIR dominance) and tags the same way; index_value is base/curve value with "
+                "exactly 0 strictly before the first node and Err without a base.",
+        "design_ref": "DESIGN.md §4 C12",
+        "note": "Not decided: numeric gradients/Hessians of looked-up values (follow from C11's generic formulas + C01/C02). Trusted: lib/cel.py Seq model.",
+        "technique": "exhaustive case evaluation of match tables with a symbolic iterator model; MIR dominance",
+    },
     "C18": {
         "text": "Kind-case evaluation of every match table: set_order/set_order_clone (9 cases each, agreeing), every From impl among f64/Dual/Dual2/"
                 "Number, new(f, vars), and every operator/comparison on the Number container for all 9 (or 3) kind cases are evaluated symbolically with "
